@@ -602,3 +602,44 @@ def skelmut(repo):
     res.detail = {"skeletons": sorted(skels), "markers": sorted(markers)}
     res.analysed = [m.rel]
     return res
+
+
+def nextprev(repo):
+    """R-NEXTPREV (C01): `$next` is the end of the previous *physical* field, present at run time or not (language
+    reference).  In the function that replaces `$next`, the loop over the structure's fields carries the previous
+    location in a variable that is handed to the replacement as `last_location`; that variable is updated from
+    `field.location` by a direct statement of the loop body (after the `continue` for virtual fields), not under any
+    further condition on the field -- a conditional update makes `$next` skip some physical fields."""
+    res = RuleResult("R-NEXTPREV")
+    m = repo.mod(SYN)
+    found = 0
+    for f in m.top_funcs():
+        for lp in [n for n in walk_no_nested_funcs(f.node) if isinstance(n, ast.For)]:
+            carried = None
+            for c in ast.walk(lp):
+                if isinstance(c, ast.Dict):
+                    for k, v in zip(c.keys, c.values):
+                        if isinstance(k, ast.Constant) and k.value == "last_location" and isinstance(v, ast.Name):
+                            carried = v.id
+            if carried is None:
+                continue
+            found += 1
+            res.instances += 1
+            loopvar = lp.target.id if isinstance(lp.target, ast.Name) else None
+            updates = [n for n in ast.walk(lp) if isinstance(n, ast.Assign) and any(isinstance(t, ast.Name) and t.id == carried for t in n.targets)]
+            direct = [u for u in updates if u in lp.body and ast.unparse(u.value) == f"{loopvar}.location"]
+            if len(direct) != 1 or len(updates) != 1:
+                where = updates[0] if updates else lp
+                par = m.parent(where) if updates else None
+                cond = f" under `{ast.unparse(par.test)[:60]}`" if isinstance(par, ast.If) else ""
+                res.add(f"{SYN}|{f.name}|{carried}", f"{f.name}: `{carried}` (handed to the replacement of `$next` as last_location) is "
+                        f"updated {len(updates)} time(s){cond}, not once and unconditionally from `{loopvar}.location` in the loop body: "
+                        "`$next` then continues from a field other than the previous physical one (fields inside `if` blocks are "
+                        "skipped, later fields overlap them and $size_in_bytes is too small)", SYN, where.lineno, f.name)
+            else:
+                # the only way past the update for a physical field is an error return
+                res.samples.append(f"{f.name}: {carried} = {loopvar}.location at line {direct[0].lineno}")
+    if not found:
+        raise AnalysisError("synthetics: the loop that hands `last_location` to the `$next` replacement was not found")
+    res.analysed = [SYN]
+    return res
